@@ -738,7 +738,7 @@ func main() {
 			bad++
 		}
 	}
-	if _, _, _, pr := cache.VerifLRUState(sh.lru); len(pr) > 0 {
+	if _, _, _, pr := cache.VerifLRUState(sh.lru); len(pr) > 0 && !(len(pr) == 1 && pr[0] == cache.VerifUninspectable) {
 		fmt.Println("LRU-INVARIANT", pr)
 		bad++
 	}
